@@ -52,7 +52,7 @@ def decode_instruction(instr):
     elif op1 == 0b10 and op2 == 0b000000 and rn != 0b1111 and rt != 0b1111:
         # Load Register Signed Byte
         return LdrsbRegisterT2
-    elif op1 == 0b00 and op2 == 0b000000 and rn != 0b1111 and rt == 0b1111:
+    elif op1 == 0b10 and op2 == 0b000000 and rn != 0b1111 and rt == 0b1111:
         # Preload Instruction
         # armv7, will not be implemented
         raise NotImplementedError()
@@ -64,7 +64,7 @@ def decode_instruction(instr):
         # armv7, will not be implemented
         raise NotImplementedError()
     elif op1 == 0b10 and rn != 0b1111 and (
-            (bit_at(instr, 11) and bit_at(instr, 8)) or (substring(instr, 11, 8) == 0b1100 and rn != 0b1111)):
+            (bit_at(instr, 11) and bit_at(instr, 8)) or (substring(instr, 11, 8) == 0b1100 and rt != 0b1111)):
         # Load Register Signed Byte
         return LdrsbImmediateT2
     elif op1 == 0b10 and substring(instr, 11, 8) == 0b1100 and rn != 0b1111 and rt == 0b1111:
